@@ -321,6 +321,13 @@ func (t *scriptTransport) NewMessage(ctx context.Context) (rpccp.Message, func()
 		t.env.wire = append(t.env.wire, s)
 		t.env.events = append(t.env.events, ">"+s)
 		t.env.mu.Unlock()
+		if rmsg.Which() == rpccp.Message_Which_return {
+			// the Conn gives parameter capabilities back with explicit Release messages: a Return that also claims to
+			// release them would give every reference back twice
+			if r, err := rmsg.Return(); err == nil && r.ReleaseParamCaps() {
+				t.env.ev("!Return-claims-releaseParamCaps-" + strconv.Itoa(int(r.AnswerId())))
+			}
+		}
 		return nil
 	}
 	release := func() {
@@ -2089,7 +2096,13 @@ func mixedScript(r *lib.Rng, n int, hostile, faults bool) string {
 					"pHcorrupt:"+strconv.Itoa(r.Intn(40))+":"+strconv.Itoa(r.Intn(20))+":pC"+strconv.Itoa(nextQ)+"/eX0/0/s1+s2",
 					"pHcorrupt:"+strconv.Itoa(r.Intn(40))+":"+strconv.Itoa(r.Intn(20))+":pRQ0/ok/s1",
 					"pHcorrupt:"+strconv.Itoa(r.Intn(30))+":"+strconv.Itoa(r.Intn(20))+":pC"+strconv.Itoa(nextQ)+"/a0.0/2",
-					"pHcorrupt:"+strconv.Itoa(r.Intn(20))+":"+strconv.Itoa(r.Intn(20))+":pDs0/a0.0"))
+					"pHcorrupt:"+strconv.Itoa(r.Intn(20))+":"+strconv.Itoa(r.Intn(20))+":pDs0/a0.0",
+					// messages the Conn answers by echoing them back as Unimplemented, with a damaged pointer inside
+					"pHcorrupt:"+strconv.Itoa(r.Intn(6))+":"+strconv.Itoa(r.Intn(20))+":pHwhich/1",
+					"pHcorrupt:"+strconv.Itoa(r.Intn(6))+":"+strconv.Itoa(r.Intn(20))+":pJ",
+					"pHcorrupt:"+strconv.Itoa(r.Intn(16))+":"+strconv.Itoa(r.Intn(20))+":pHcallyourself/"+strconv.Itoa(nextQ),
+					"pHcorrupt:"+strconv.Itoa(r.Intn(10))+":"+strconv.Itoa(r.Intn(20))+":pHdisprovide/1",
+					"pHcorrupt:"+strconv.Itoa(r.Intn(8))+":"+strconv.Itoa(r.Intn(20))+":pHrettake/Q0/1"))
 				nextQ++
 			} else if faults {
 				add(r.PickS("fN1", "fN2", "fS1", "fS2", "fV", "fN1", "fS1", "fC"))
@@ -2138,6 +2151,9 @@ var rpcDirected = []string{
 	"1fC,pB0,lZ",                                                                      // the transport's Close fails: Close returns, Done is closed
 	"1fC,pB0,fV,lZ",                                                                   // … after the Conn shut itself down on a receive error
 	"1fC,lB,pHabort,lZ,lZ",                                                            // … or on the peer's Abort
+	"1pHcorrupt:2:7:pHwhich/1,pB0,lB",                                                 // an unknown message whose pointer is out of bounds: the echo cannot be built; the next Bootstrap is answered
+	"1pHcorrupt:2:12:pHwhich/1,pB0,pC1:e0:0",                                          // … a far pointer into a segment that does not exist
+	"1pB0,pHcorrupt:2:7:pJ,pC1:e0:0,lB",
 	"1lB,fH,pRQ0:boot:s1,lB,fG,pRQ0:boot:s1",                                         // a new question while the Return's Finish is still to be sent
 	"1lB,lB,pRQ0:boot:s1,lS0:0,lr0,pRQ0:boot:s1,fG,lR1",                               // a reference to an import arrives while its last handle is being released
 	"1lB,lB,pRQ0:boot:s1,lS0:0,lr0,pRQ0:boot:s1,lR1,fG",                               // … and the newer client goes away first
@@ -2237,7 +2253,7 @@ func genC09(rec *lib.Rec, r *lib.Rng, thorough bool) {
 	if Shard == 0 {
 		for _, packed := range []string{"0", "1"} {
 			for i := 0; i < 8; i++ {
-				for _, k := range []string{"p", "z"} {
+				for _, k := range []string{"p", "z", "c"} {
 					plan := strings.Repeat("f", i) + k
 					rec.Op("M", "rpc stream "+packed+" 5 "+plan, true)
 					rec.Op("M", "rpc streampre "+packed+" 5 "+plan, true)
@@ -2251,7 +2267,7 @@ func genC09(rec *lib.Rec, r *lib.Rng, thorough bool) {
 	for i := 0; i < n/Shards; i++ {
 		plan := make([]byte, 2+r.Intn(14))
 		for j := range plan {
-			plan[j] = "ffffffpz"[r.Intn(8)]
+			plan[j] = "fffffffpzc"[r.Intn(10)]
 		}
 		rec.Op("M", fmt.Sprintf("rpc %s %d %d %s", r.PickS("stream", "stream", "streampre"), r.Intn(2), 2+r.Intn(6), plan), true)
 	}
@@ -2271,6 +2287,38 @@ type faultyRWC struct {
 	writes  []int    // index of the send each chunk belongs to
 	cur     int
 	blockCh chan struct{}
+
+	dmu      sync.Mutex
+	deadline time.Time     // SetWriteDeadline
+	stuck    chan struct{} // closed when a 'c' Write has taken its few bytes and waits for its deadline
+	retry    bool          // the next Write is the grace-period retry of a 'c' Write: it times out with nothing written
+}
+
+// timeoutErr is what a net.Conn returns when its write deadline passes
+type timeoutErr struct{}
+
+func (timeoutErr) Error() string { return "i/o timeout" }
+func (timeoutErr) Timeout() bool { return true }
+
+// SetWriteDeadline makes the transport take its deadline-based path (as with a net.Conn)
+func (f *faultyRWC) SetWriteDeadline(t time.Time) error {
+	f.dmu.Lock()
+	f.deadline = t
+	f.dmu.Unlock()
+	return nil
+}
+
+// waitDeadline blocks until a write deadline has been set and has passed
+func (f *faultyRWC) waitDeadline() {
+	for i := 0; i < 100000; i++ {
+		f.dmu.Lock()
+		d := f.deadline
+		f.dmu.Unlock()
+		if !d.IsZero() && !time.Now().Before(d) {
+			return
+		}
+		time.Sleep(200 * time.Microsecond)
+	}
 }
 
 func (f *faultyRWC) Read(p []byte) (int, error) { <-f.blockCh; return 0, errors.New("closed") }
@@ -2283,6 +2331,12 @@ func (f *faultyRWC) Close() error {
 	return nil
 }
 func (f *faultyRWC) Write(p []byte) (int, error) {
+	if f.retry {
+		// the rest of a buffer whose first bytes went out before the send was cancelled: the peer takes no more
+		f.retry = false
+		f.waitDeadline()
+		return 0, timeoutErr{}
+	}
 	o := byte('f')
 	if f.k < len(f.plan) {
 		o = f.plan[f.k]
@@ -2303,6 +2357,26 @@ func (f *faultyRWC) Write(p []byte) (int, error) {
 	case 'z':
 		n = 0
 		err = errInjected
+	case 'c':
+		// the peer takes three bytes and stalls; the send is cancelled (the harness does that when `stuck` closes), the
+		// write deadline fires
+		n = 3
+		if n >= len(p) {
+			n = len(p) - 1
+		}
+		if n <= 0 {
+			n = 0
+			err = errInjected
+			break
+		}
+		f.chunks = append(f.chunks, append([]byte(nil), p[:n]...))
+		f.writes = append(f.writes, f.cur)
+		if f.stuck != nil {
+			close(f.stuck)
+		}
+		f.waitDeadline()
+		f.retry = true
+		return n, timeoutErr{}
 	}
 	if n > 0 {
 		f.chunks = append(f.chunks, append([]byte(nil), p[:n]...))
@@ -2319,6 +2393,9 @@ func execRPCStream(packed bool, frames int, plan string, pre bool) string {
 	} else {
 		tr = rpc.NewStreamTransport(rwc)
 	}
+	if st, ok := tr.(interface{ SetPartialWriteTimeout(time.Duration) }); ok {
+		st.SetPartialWriteTimeout(30 * time.Millisecond)
+	}
 	// like Conn: a receive is in progress, and is abandoned (context cancelled) before the transport is closed
 	rctx, rcancel := context.WithCancel(context.Background())
 	recvDone := make(chan struct{})
@@ -2330,8 +2407,20 @@ func execRPCStream(packed bool, frames int, plan string, pre bool) string {
 		release capnp.ReleaseFunc
 	}
 	var early []created
+	var stucks []chan struct{}
 	create := func(i int) (created, bool) {
-		msg, send, release, err := tr.NewMessage(context.Background())
+		// the send's context is cancelled as soon as a Write of it is stuck after a few bytes (plan outcome 'c')
+		ctx, cancel := context.WithCancel(context.Background())
+		stuck := make(chan struct{})
+		go func() {
+			select {
+			case <-stuck:
+				cancel()
+			case <-rwc.blockCh:
+			}
+		}()
+		stucks = append(stucks, stuck)
+		msg, send, release, err := tr.NewMessage(ctx)
 		if err != nil {
 			full = append(full, nil)
 			return created{}, false
@@ -2358,6 +2447,9 @@ func execRPCStream(packed bool, frames int, plan string, pre bool) string {
 	}
 	for i := 0; i < frames; i++ {
 		rwc.cur = i
+		if pre {
+			rwc.stuck = stucks[i]
+		}
 		var c created
 		if pre {
 			c = early[i]
@@ -2367,6 +2459,7 @@ func execRPCStream(packed bool, frames int, plan string, pre bool) string {
 				res = append(res, "n") // NewMessage refused: the stream is marked broken
 				continue
 			}
+			rwc.stuck = stucks[len(stucks)-1]
 		}
 		if err := c.send(); err != nil {
 			res = append(res, "e")
